@@ -53,6 +53,7 @@ def insert_dequant(
       tensor.shape,
       schema_py_generated.TensorType.FLOAT32,
       transformation_input.subgraph,
+      shape_signature=tensor.shapeSignature,
   )
 
   # create dequantize_op
